@@ -2,6 +2,7 @@ package nodeutil
 
 import (
 	"fmt"
+	"github.com/freeconf/yang/val"
 	"reflect"
 
 	"github.com/freeconf/yang/meta"
@@ -69,7 +70,7 @@ func (def *mapAsList) getByKey(r node.ListRequest) (reflect.Value, error) {
 	if !isKeyValid(r.Key) {
 		return empty, fmt.Errorf("no key specified for %s", r.Path.String())
 	}
-	keyVal := reflect.ValueOf(r.Key[0].Value())
+	keyVal := mapKey(r.Key[0])
 	found := def.src.MapIndex(keyVal)
 	if !found.IsValid() {
 		return empty, nil
@@ -81,7 +82,7 @@ func (def *mapAsList) deleteByKey(r node.ListRequest) error {
 	if !isKeyValid(r.Key) {
 		return fmt.Errorf("no key specified for %s", r.Path.String())
 	}
-	keyVal := reflect.ValueOf(r.Key[0].Value())
+	keyVal := mapKey(r.Key[0])
 	def.src.SetMapIndex(keyVal, reflect.ValueOf(nil))
 	return nil
 }
@@ -107,7 +108,16 @@ func (def *mapAsList) newListItem(r node.ListRequest) (reflect.Value, error) {
 	if err != nil {
 		return empty, err
 	}
-	keyVal := reflect.ValueOf(r.Key[0].Value())
+	keyVal := mapKey(r.Key[0])
 	def.src.SetMapIndex(keyVal, itemVal)
 	return itemVal, nil
+}
+
+// mapKey is the key a list item is kept under in a Go map. A binary key value is a byte
+// slice, which no map can be keyed by: its base64 text is used.
+func mapKey(v val.Value) reflect.Value {
+	if _, isBytes := v.Value().([]byte); isBytes {
+		return reflect.ValueOf(v.String())
+	}
+	return reflect.ValueOf(v.Value())
 }
